@@ -5,6 +5,7 @@ package pipeline
 import (
 	"reflect"
 	"sync/atomic"
+	"time"
 )
 
 // Verification hooks, compiled only with -tags verif.
@@ -167,3 +168,6 @@ func verifID(x any) int64 {
 	}
 	return 0
 }
+
+// verifSince is time.Since in nanoseconds
+func verifSince(t time.Time) int64 { return int64(time.Since(t)) }
